@@ -24,10 +24,10 @@ EXEMPT = {'BSC_getpid', 'BSC_getuid', 'BSC_geteuid', 'BSC_getppid', 'BSC_getegid
 ERR_WORDS = [1, 2, 13, 35, 45, 106, 9999, (1 << 32) + 5, (1 << 64) - 1]
 
 
-def bsd_names():
+def bsd_names(only_supported=True):
     from pykdebugparser.trace_handlers.bsd import handlers
     sup = set(D.supported_names())
-    return [n for n in handlers if n in sup]
+    return [n for n in handlers if n in sup or not only_supported]
 
 
 def render(name, start, end, lookups):
@@ -112,7 +112,7 @@ def correspondence(rep, rng, tier):
     sec['rule'] = ('failing-input search on the real code: every non-exempt BSD decoder x error words %s x return words; '
                    'error => exactly errno text and no success value; zero => no errno and only renderings of the return '
                    'word; result independent of START, call independent of END' % ERR_WORDS)
-    for n in names:
+    for n in bsd_names(only_supported=False):      # the search runs on every registered decoder, translated or not
         if n in EXEMPT:
             continue
         sec['cases'] += 1
@@ -121,6 +121,12 @@ def correspondence(rep, rng, tier):
         if r:
             rep.add_failure(r[0], r[1], {'section': 'results', 'decoder': n, 'case': r[2]})
     sec['dist'] = {'bsd_decoders': len(names), 'exempt_present': len([n for n in names if n in EXEMPT])}
+    _matching(rep, rng, tier)
+
+
+def _matching(rep, rng, tier):
+    from .. import pipeline as P
+    P.matching_search(rep, rng, tier, 'C10')
 
 
 def replay(path):
